@@ -454,6 +454,7 @@ def run(run: core.Run) -> int:
     n_hist, maxlen, per_session, n_prog = (100, 6, 10, 30) if quick else (5000, 20, 25, 160)
     n_instr = 4 if quick else 40
     jobs = core.jobs_for(run.tier)
+    stamp0 = fresh.tree_stamp()
     prep = core.lean_prepare(MODULES)
     aud = core.audit(THEOREMS, MODULES) if prep["proofs_ok"] else {"obligations": len(THEOREMS), "discharged": 0, "ok": False, "theorems": {}}
     drv = core.Driver() if prep["driver_ok"] else None
@@ -587,6 +588,8 @@ def run(run: core.Run) -> int:
             sr = cachehist.stale_report(m)
             stale_total.update(sr["counts"])
             stale_examples += sr["examples"][:2]
+    if fresh.tree_stamp() != stamp0:
+        raise core.Infra("the files under " + core.REPO + "/explorerscript changed while the check was running: references and sessions saw different trees; run again")
     if not prep["proofs_ok"] or not aud["ok"] or drv is None:
         run.broken_tie("Lean obligations of C11 do not check (build/audit)", {"theorems": THEOREMS, "log": prep["log"][-3000:], "audit": aud})
 
